@@ -324,7 +324,8 @@ Definition b_step (s : list lexp * bstate) (o : op) : list lexp * bstate :=
   | ODiv => push (b_div st a0 a1)
   | ODivUnchecked => push (b_divunchecked st a0 a1)
   | OInverse => push (b_inverse st a0)
-  | OFromBinary => push (b_frombinary st (cle (cst 0)) 1%Z a)
+  | OFromBinary => match a with [] => (vars, set_err st)   (* bits.FromBase: "needs at least 1 digit" *)
+                   | _ => push (b_frombinary st (cle (cst 0)) 1%Z a) end
   | OXor => push (b_xor st a0 a1)
   | OOr => push (b_or st a0 a1)
   | OAnd => push (b_and st a0 a1)
